@@ -16,6 +16,8 @@ pub struct HistCfg {
     pub check_mem: bool,
     pub value_offset: usize,
     pub hard_exit: bool,
+    pub light: bool,
+    pub sweep_every: usize,
 }
 
 #[derive(Clone, Debug, Default)]
@@ -105,7 +107,7 @@ pub fn measure_value_offset() -> usize {
 pub fn run_history(cfg: &HistCfg, gen: &mut dyn FnMut(&World) -> Option<Op>, max_ops: usize) -> HistResult {
     // fresh world
     world::with(|w| {
-        *w = World::new(Cfg { class: cfg.class, check_links: cfg.check_links, check_mem: cfg.check_mem, log_cap: 600, hard_exit: cfg.hard_exit });
+        *w = World::new(Cfg { class: cfg.class, check_links: cfg.check_links, check_mem: cfg.check_mem, log_cap: 600, hard_exit: cfg.hard_exit, light: cfg.light, sweep_every: cfg.sweep_every });
         w.value_offset = cfg.value_offset;
     });
     alloc::reset_lib_accounting();
@@ -148,6 +150,9 @@ pub fn run_history(cfg: &HistCfg, gen: &mut dyn FnMut(&World) -> Option<Op>, max
             }
         }
         exec::check_mem_final();
+    }
+    if cfg.sweep_every != 1 && !world::with(|w| w.stop) {
+        exec::sweep();
     }
     // end of history
     let stopped = world::with(|w| w.stop);
